@@ -302,8 +302,8 @@ def options_stage(tools, work, rep, ev, tier, rng, cfg):
     """spec/TarOpts.tla: archives x tar2sqfs --root-becomes / --no-symlink-retarget, and the fixed image x sqfs2tar
     --subdir / --keep-as-dir / --root-becomes / --no-hard-links; every emitted case on the real converters"""
     import re
-    OC = {"Emit": False, "MaxEntries": 2, "CanonMutatesTarget": False}
-    for side, invs in (("t2s", ["TargetsUntouched"]), ("s2t", ["LinksResolve", "RoundTripShape"])):
+    OC = {"Emit": False, "MaxEntries": 2, "CanonMutatesTarget": False, "NoRetargetCoversHardLinks": False}
+    for side, invs in (("t2s", ["TargetsUntouched", "HardLinksFollow"]), ("s2t", ["LinksResolve", "RoundTripShape"])):
         write_cfg(cfg, spec="Spec", constants=dict(OC, Side='"%s"' % side), invariants=invs, deadlock=False)
         r = run_tlc("TarOpts", cfg, workers=8, timeout=900)
         ev.tlc(r, "TarOpts " + side)
@@ -316,18 +316,30 @@ def options_stage(tools, work, rep, ev, tier, rng, cfg):
     if r["violated"] != "TargetsUntouched":
         print("SELF-CHECK-FAILED: CanonMutatesTarget without counterexample")
         return None
+    write_cfg(cfg, spec="Spec", constants=dict(OC, Side='"t2s"', NoRetargetCoversHardLinks=True), invariants=["HardLinksFollow"], deadlock=False)
+    r = run_tlc("TarOpts", cfg, workers=8, timeout=900)
+    ev.tlc(r, "dev TarOpts NoRetargetCoversHardLinks")
+    if r["violated"] != "HardLinksFollow":
+        print("SELF-CHECK-FAILED: NoRetargetCoversHardLinks without counterexample")
+        return None
     n = 0
     # ---- tar2sqfs side ----
     write_cfg(cfg, spec="Spec", constants=dict(OC, Side='"t2s"', Emit=True), invariants=["EmitOK"], deadlock=False)
     r = run_tlc("TarOpts", cfg, workers=4, timeout=900)
     cases = bpbind.parse_emitted(r["out"])
     ev.set("tar2sqfs_option_cases_emitted", len(cases))
-    withlink = [c for c in cases if c["rb"] and any(e["kind"] == "slink" for e in c["arch"])]
-    rest = [c for c in cases if c not in withlink] if len(cases) < 30000 else []
+    key = lambda c: json.dumps(c, sort_keys=True)
+    hl = [c for c in cases if any(e["kind"] == "hlink" for e in c["arch"])]                 # every archive with a hard link (few): all of them
+    hlk = {key(c) for c in hl}
+    withlink = [c for c in cases if c["rb"] and key(c) not in hlk and any(e["kind"] == "slink" for e in c["arch"])]
+    wk = {key(c) for c in withlink}
+    rest = [c for c in cases if key(c) not in hlk and key(c) not in wk]
+    rng.shuffle(hl)
     rng.shuffle(withlink)
     rng.shuffle(rest)
     cap = 700 if tier == "quick" else 20000
-    cases = withlink[:cap] + rest[:cap // 3]
+    cases = hl[:cap] + withlink[:cap] + rest[:cap // 3]
+    ev.set("tar2sqfs_option_cases_with_hard_links", len(hl))
 
     def t2s(i):
         c = cases[i]
@@ -339,6 +351,8 @@ def options_stage(tools, work, rep, ev, tier, rng, cfg):
             elif e["kind"] == "file":
                 d = b"content of " + name
                 arch += tarfmt.header(name, b"0", size=len(d)) + tarfmt.pad(d)
+            elif e["kind"] == "hlink":
+                arch += tarfmt.header(name, b"1", linkname=e["tgt"].encode())
             else:
                 arch += tarfmt.header(name, b"2", linkname=e["tgt"].encode())
         arch += tarfmt.terminator()
@@ -354,6 +368,11 @@ def options_stage(tools, work, rep, ev, tier, rng, cfg):
             if not e["path"]:
                 continue
             g = t.get("/".join(e["path"]).encode())
+            if e["kind"] == "hlink":
+                tg = t.get(e["tgt"].encode())
+                if g is None or tg is None or g["inum"] != tg["inum"] or g["kind"] != "file":
+                    return i, "hard link /%s: not another name of /%s in the image (%s)" % ("/".join(e["path"]), e["tgt"], g and g["kind"]), arch
+                continue
             if g is None or g["kind"] != e["kind"]:
                 return i, "entry /%s: image has %s, specification %s" % ("/".join(e["path"]), g and g["kind"], e["kind"]), arch
             if e["kind"] == "slink" and g["target"] != e["tgt"].encode():
